@@ -19,7 +19,10 @@ def set_targets(r, impl, old, pat, v, d):
     """(--set-version value, kind)"""
     from bumpver import version
     out = []
-    bumped = impl.v2version.incr(old, pat, patch="PATCH" in pat, maybe_date=d + dt.timedelta(days=400))
+    try:
+        bumped = impl.v2version.incr(old, pat, patch="PATCH" in pat, maybe_date=d + dt.timedelta(days=400))
+    except Exception:
+        bumped = None      # e.g. a pattern without separators between numeric parts reads its own text differently (outside the well-formed class)
     if bumped:
         out.append((bumped, "greater"))
         out.append((bumped + r.choice([".5", "x", "-", " ", "0"]), "malformed-suffix"))
@@ -204,20 +207,27 @@ def vcs_tag_runs(rep, impl, r, tier, effort):
                 for extra in ([], ["--set-version", "1.0.3"], ["--set-version", "9.0.0"], ["--dry"]):
                     scen.append((fetch, fail, cfgv, tags, extra))
     r.shuffle(scen)
-    for fetch, fail, cfgv, tags, extra in scen:
-        prj = project.TempProject("MAJOR.MINOR.PATCH", cfgv, files={"a.txt": ["ver = {version}"]}, commit=True, tag=True, push=False, vcs="fakegit",
+    scen = [(f_, fl_, c_, t_, e_, "MAJOR.MINOR.PATCH", None) for f_, fl_, c_, t_, e_ in scen]
+    # tags in a non-canonical spelling of the pattern (created by bumpver itself through --set-version 1.2.0) are versions like any other
+    for scope in ("global", "default"):
+        scen.append(("--no-fetch", [], "1.1", ["1.2.0", "1.1"], ["--minor-only"], "MAJOR.MINOR[.PATCH]", scope))
+        scen.append(("--no-fetch", [], "1.2.2", ["1.2.3rc", "1.2.2"], [], "MAJOR.MINOR.PATCH[PYTAG[NUM]]", scope))
+    for fetch, fail, cfgv, tags, extra, vpat, scope in scen:
+        bump = ["--minor"] if "--minor-only" in extra else ["--patch"]
+        extra = [x for x in extra if x != "--minor-only"]
+        prj = project.TempProject(vpat, cfgv, files={"a.txt": ["ver = {version}"]}, commit=True, tag=True, push=False, vcs="fakegit", tag_scope=scope,
                                   git_file=(len(scen) + len(extra) + len(fail) + len(tags)) % 2 == 0,   # half of them laid out like a linked worktree (.git is a file)
                                   vcs_cfg=dict(tags=list(tags), status="", remote="origin", fail=list(fail), usable=True))
         with prj:
             before = prj.snapshot()
-            args = ["update", fetch] + (extra if "--set-version" in extra else ["--patch"] + extra)
+            args = ["update", fetch] + (extra if "--set-version" in extra else bump + extra)
             code, out, logs, exc = prj.run(impl, args)
             after = prj.snapshot()
             new = next((l.split("New Version: ", 1)[1] for l in logs if "New Version: " in l), None)
         start = max([pv.Version(cfgv)] + [pv.Version(t) for t in tags])
-        rep.case(("vcs-tags", fetch, tuple(fail), cfgv, tuple(tags), tuple(extra)), nontrivial=code == 0)
+        rep.case(("vcs-tags", fetch, tuple(fail), cfgv, tuple(tags), tuple(extra), vpat, scope), nontrivial=code == 0)
         rep.count("vcs-tag-runs:%s" % ("exit0" if code == 0 else "nonzero"))
-        inp = dict(args=args, config_version=cfgv, tags=tags, failing_vcs_commands=fail, exit=code, new=new, logs=logs[-5:])
+        inp = dict(args=args, version_pattern=vpat, tag_scope=scope, config_version=cfgv, tags=tags, failing_vcs_commands=fail, exit=code, new=new, logs=logs[-5:])
         if code == 0:
             if new is None or not (pv.Version(new) > start):
                 rep.violation("update exits 0 with %s, not greater than the version it had to start from (%s: config %s, tags %s)" % (new, start, cfgv, tags),
